@@ -282,6 +282,7 @@ func runC10(r *Run, replay *Case) {
 	}
 	if replay != nil && replay.Input["kind"] == "processor-history" {
 		c10ProcessorHistory(r)
+		c10InPlaceProcessorHistory(r)
 		return
 	}
 	if replay != nil && replay.Input["steps"] != nil {
@@ -402,6 +403,7 @@ func runC10(r *Run, replay *Case) {
 	c10NoFS(r)
 	c10FileHistory(r)
 	c10ProcessorHistory(r)
+	c10InPlaceProcessorHistory(r)
 }
 
 // c10FileHistory: "the call's own templates" are the files as they are NOW. A file that was rendered and is then replaced by another
